@@ -563,6 +563,20 @@ def check_copy_ops(rep, prog, clsname, rule, floor_note=''):
                 for s in src.walk():
                     if s.k == 'MemberExpr' and s.decl_id == tv and s.c and ex.var_of(s.c[0]) == pid:
                         copied.add(tv)
+        # swap-based moves: std::swap(f, v.f) / f.swap(v.f)
+        for d in fn.walk():
+            pair = None
+            if d.k == 'CallExpr' and d.callee and d.callee['g'] in ('std::swap', 'boost::swap') and len(d.args()) == 2:
+                pair = (d.args()[0], d.args()[1])
+            elif d.k == 'CXXMemberCallExpr' and d.callee and d.callee['name'] == 'swap' and len(d.args()) == 1 and d.object_arg() is not None:
+                pair = (d.object_arg(), d.args()[0])
+            if pair:
+                for a, b in (pair, pair[::-1]):
+                    tv = ex.var_of(a)
+                    if tv in fields:
+                        for s2 in b.walk():
+                            if s2.k == 'MemberExpr' and s2.decl_id == tv and s2.c and ex.var_of(s2.c[0]) == pid:
+                                copied.add(tv)
         what = '%s copies every data member of its argument' % ('copy/move constructor' if fr.get('ctor') else 'assignment operator')
         missing = [prog.vars[f]['name'] for f in fields if f not in copied]
         if missing:
